@@ -3,11 +3,16 @@
 # development (full .vo build), the extracted model and its OCaml driver.
 set -e
 cd "$(dirname "$0")"
-python3 gen/scan_sites.py
-python3 gen/ast2coq.py
+# tables regenerated from /repo's current source; a failure here (a header the translators cannot handle) is reported
+# by the checks that own the table, not by the set-up
+python3 gen/scan_sites.py || echo "setup: scan_sites.py failed (reported by C09/C18)"
+python3 gen/ast2coq.py || echo "setup: ast2coq.py failed (reported by C13)"
+python3 gen/symkern.py || echo "setup: symkern.py failed (reported by C02 C03 C04 C06 C07)"
 cd coq
 coq_makefile -f _CoqProject -o Makefile
-timeout 3000 make -j16
+# -k: a proof about a generated table that no longer goes through must not keep the rest from being built;
+# every check re-makes and re-checks its own property files
+timeout 3000 make -k -j16 || echo "setup: some Coq files did not compile (reported by the checks that own them)"
 cd ..
 python3 - <<'PY'
 import sys
